@@ -1,3 +1,4 @@
+\* two writers under different unprivileged uids on a group-shared store
 \* C16: two writers with overlapping requests, every interleaving of the file-system-grain steps, unprivileged (mode bits are enforced)
 SPECIFICATION Spec
 CONSTANTS
@@ -7,7 +8,7 @@ CONSTANTS
     Req <- ReqTwo
     Style <- StyleT2
     Privileged = FALSE
-    Mixed = FALSE
+    Mixed = TRUE
     KnownDev = {}
     MaxCrashes = 0
 INVARIANT C16_AllSucceed
